@@ -736,12 +736,14 @@ func (mr *machineRun) hooks(x0 *Exec) Hooks {
 				for key, old := range st.Heap {
 					if key == name || strings.HasPrefix(key, name+".") || strings.HasPrefix(key, name+"#") {
 						st.Heap[key] = x.freshLike(st, key+"@callbacks", old, old.GoT)
+						st.Written[key] = true // a loop around this subscription forgets the cell at its head as well
 						found = true
 					}
 				}
 				if !found && st.Zero[name] {
 					// a zero-initialised cell that was not read yet (`var lastErr error` in a loop body): unknown as well
 					st.Named["unknown:"+name] = "true"
+					st.Written[name] = true
 				}
 			}
 			if len(mr.sp.Inv) > 0 {
